@@ -98,19 +98,33 @@ def strip_comments(txt):
     return "".join(out)
 
 
-def audit_sources():
-    """grep every Lean source of the project (comments stripped) for forbidden constructs"""
-    hits = []
-    for root, _, files in os.walk(LEAN):
-        if ".lake" in root:
+def import_closure(module):
+    """local modules (Tmcg*, TmcgProofs*, TmcgProps*) transitively imported by `module`, plus the driver"""
+    seen = set()
+    todo = [module, "Main", "Tmcg.Driver"]
+    while todo:
+        m = todo.pop()
+        if m in seen:
             continue
-        for f in files:
-            if not f.endswith(".lean"):
-                continue
-            p = os.path.join(root, f)
-            for ln, line in enumerate(strip_comments(open(p).read()).splitlines(), 1):
-                if FORBIDDEN.search(line):
-                    hits.append("%s:%d: %s" % (os.path.relpath(p, LEAN), ln, line.strip()[:120]))
+        p = os.path.join(LEAN, m.replace(".", "/") + ".lean")
+        if not os.path.exists(p):
+            continue
+        seen.add(m)
+        for mm in re.findall(r"^import\s+(\S+)", open(p).read(), re.M):
+            if mm.split(".")[0] in ("Tmcg", "TmcgProofs", "TmcgProps"):
+                todo.append(mm)
+    return sorted(seen)
+
+
+def audit_sources(module):
+    """grep every Lean source the property's theorems and the driver depend on (comments
+    stripped) for forbidden constructs"""
+    hits = []
+    for m in import_closure(module):
+        p = os.path.join(LEAN, m.replace(".", "/") + ".lean")
+        for ln, line in enumerate(strip_comments(open(p).read()).splitlines(), 1):
+            if FORBIDDEN.search(line):
+                hits.append("%s:%d: %s" % (os.path.relpath(p, LEAN), ln, line.strip()[:120]))
     return hits
 
 
@@ -215,7 +229,8 @@ def main():
 
     # 1. implementation + harness
     log("building /repo working tree + harness (sanitizers)")
-    exe = build_repo.build(build_repo.harness_sources(), "tmcg_harness", "san", quiet=True)
+    flavours = sorted({(ar[3] if len(ar) > 3 else "san") for ar in P["areas"]})
+    exes = {fl: build_repo.build(build_repo.harness_sources(), "tmcg_harness", fl, quiet=True) for fl in flavours}
     # 2. generated layer
     gen_constants.main()
     # 3. Lean build
@@ -236,7 +251,7 @@ def main():
         notes.append("lake build of %s failed" % P["module"])
     else:
         # 4. audit
-        hits = audit_sources()
+        hits = audit_sources(P["module"])
         if hits:
             broken_obligations = list(obligations)
             notes.append("forbidden construct in Lean sources: " + "; ".join(hits[:5]))
@@ -274,7 +289,9 @@ def main():
     pred_failures = []  # (area, cmd, impl_line, msg)
     all_impl_lines = []
     san_reports = []
-    for (area, sizes, extra) in P["areas"]:
+    for ar in P["areas"]:
+        area, sizes, extra = ar[0], ar[1], ar[2]
+        exe = exes[ar[3] if len(ar) > 3 else "san"]
         cases = sizes[tier]
         log("correspondence: area %s, %d cases, seed %d" % (area, cases, seed))
         cmd, rc, out, err = run_harness(exe, area, seed, cases, tier, extra)
@@ -330,7 +347,11 @@ def main():
         violations.append((kind, path, found))
 
     seen_known = set()
-    for (area, cmd, a, msg) in pred_failures[:50]:
+    seen_msgs = set()
+    for (area, cmd, a, msg) in pred_failures:
+        if msg in seen_msgs or len(seen_msgs) >= 3:
+            continue
+        seen_msgs.add(msg)
         report("failing-input", {"property": pid, "kind": "failing-input", "harness_cmd": cmd, "seed": seed,
                                  "trace_line": a, "message": msg,
                                  "how_to_replay": "run harness_cmd, feed the line to lean/.lake/build/bin/tmcg_model; tools/check.py %s --replay <this file>" % pid},
@@ -346,8 +367,9 @@ def main():
         if pred:
             log("correspondence mismatch; searching for a failing input on other seeds")
             for s2 in range(seed + 1, seed + 1 + (4 if tier == "quick" else 12)):
-                for (area, sizes, extra) in P["areas"]:
-                    cmd, rc, out, err = run_harness(exe, area, s2, sizes[tier] * 2, tier, extra)
+                for ar in P["areas"]:
+                    area, sizes, extra = ar[0], ar[1], ar[2]
+                    cmd, rc, out, err = run_harness(exes[ar[3] if len(ar) > 3 else "san"], area, s2, sizes[tier] * 2, tier, extra)
                     st = {}
                     for a in out.splitlines():
                         try:
